@@ -84,6 +84,10 @@ def op_m5_replay(rng, i=0, **kw):
     return _base(rng, "M5", mode="replay", i=i, **kw)
 
 
+def op_unpair(rng, **kw):
+    return _base(rng, "unpair", **kw)
+
+
 def op_seq(rng, byte, **kw):
     return _base(rng, "seq", byte=byte, **kw)
 
@@ -152,6 +156,19 @@ def boundary_plans(rng) -> List[Dict[str, Any]]:
                                                 op_m5(rng, key, "valid", conn=c)]))
     P.append(new_plan(rng, [op_m1(rng, **c0), op_m3_honest(rng, "ok", **c0), dict(op_m3_deg(rng, 1, "min", conn=1), drop="M"),
                             op_m5(rng, "lastA", "valid", conn=1)]))
+    # the accessory becomes unpaired again after a completed exchange: nothing of that exchange may be reused
+    done = lambda: [op_m1(rng, **c0), op_m3_honest(rng, "ok", **c0), op_m5(rng, "sess", "valid", **c0), op_unpair(rng)]  # noqa: E731
+    for c in (0, 1):
+        P.append(new_plan(rng, done() + [op_m5_replay(rng, 0, conn=c)]))
+        P.append(new_plan(rng, done() + [op_m5(rng, "good", "valid", conn=c)]))
+        P.append(new_plan(rng, done() + [op_m3_replay(rng, 0, conn=c), op_m5_replay(rng, 0, conn=c)]))
+        P.append(new_plan(rng, done() + [op_m3_honest(rng, "ok", conn=c), op_m5(rng, "sess", "valid", conn=c)]))
+        P.append(new_plan(rng, done() + [op_m5(rng, "s0", "valid", conn=c), op_m3_deg(rng, 1, conn=c), op_m5(rng, "s0", "valid", conn=c)]))
+    P.append(new_plan(rng, done() + [op_m1(rng, **c0), op_m5_replay(rng, 0, **c0), op_m3_replay(rng, 0, **c0), op_m5_replay(rng, 0, **c0)]))
+    P.append(new_plan(rng, done() + [op_m1(rng, **c0), op_m3_honest(rng, "ok", **c0), op_m5(rng, "sess", "valid", **c0), op_unpair(rng),
+                                     op_m5_replay(rng, 0, **c0), op_m5_replay(rng, 1, **c0)]))
+    P.append(new_plan(rng, [op_unpair(rng), op_m1(rng, **c0), op_m5_replay(rng, 0, **c0)], prepaired=True))
+    P.append(new_plan(rng, [op_m1(rng, **c0), op_m3_honest(rng, "ok", **c0), op_unpair(rng), op_m5(rng, "sess", "valid", **c0)]))
     # dispatch edge cases
     P.append(new_plan(rng, [op_seq(rng, b, **c0) for b in (0, 2, 4, 6, 7, 255, None, "long")] +
                       [op_raw(rng, b"", **c0), op_raw(rng, b"\x06", **c0), op_raw(rng, b"\x06\x05\x01", **c0)]))
@@ -171,8 +188,14 @@ def random_plan(rng) -> Dict[str, Any]:
     if warm:
         ops += [op_m1(rng, conn=0), op_m3_honest(rng, "ok", "exact", "min", conn=0)]
         n_m3 = 1
+        if rng.random() < 0.3:   # ... or from a completed exchange on an accessory that was unpaired again
+            ops += [op_m5(rng, "sess", "valid", conn=0), op_unpair(rng)]
+            n_m5 = 1
     for _ in range(n):
         r = rng.random()
+        if n_m5 and warm and rng.random() < 0.35:
+            ops.append(rng.choice([op_m5_replay(rng, rng.randrange(n_m5)), op_m3_replay(rng, rng.randrange(n_m3)), op_unpair(rng)]))
+            continue
         if warm and r < 0.5:
             r = 0.64 + r * 0.44   # mostly M5 variants
         if r < 0.22 or not ops:
@@ -246,7 +269,8 @@ def run_plan(plan: Dict[str, Any]) -> Dict[str, Any]:
     last_client = None    # the latest honest-looking client computation (its K is what a peer "has")
     good_client = None    # the latest client computation whose M3 demonstrated knowledge (the honest session)
     last_A_public = False  # the A of the latest M3 that carried one is 0 mod N (its K is public)
-    xch = 0               # number of M2 answers so far = index of the current exchange
+    xch = 0               # index of the current exchange (advanced by every M2 answer and by every consumption)
+    consumed = False      # an accepted M5 has used up the latest exchange and no M2 was issued since
     code_key = None       # K of a client that used the CORRECT code on the current exchange's latest M3
     last_m3_kind = "none"
     demo_elsewhere = False
@@ -260,6 +284,11 @@ def run_plan(plan: Dict[str, Any]) -> Dict[str, Any]:
             idents = []
             kind = op["op"]
             m5_key, m5_public = None, False
+            if op["op"] == "unpair":
+                r = sc.unpair()
+                kinds.append("unpair")
+                outs.append("unpaired" if not r["paired"] else "still-paired")
+                continue
             if op["op"] == "M1":
                 items = [(pc.T_STATE, b"\x01"), (pc.T_METHOD, b"\x00")]
                 if op.get("extra"):
@@ -388,7 +417,8 @@ def run_plan(plan: Dict[str, Any]) -> Dict[str, Any]:
                     f"M4 carries the accessory's SRP proof although the M3 ({kind}) does not demonstrate knowledge of the setup code",
                 ])
             if (o["O2"] or o["O3"]) and not (demo or m5_with_code_key):
-                how = ("after-degenerate-A" if last_m3_kind == "degenerate" else
+                how = ("after-the-exchange-was-consumed" if consumed else
+                       "after-degenerate-A" if last_m3_kind == "degenerate" else
                        "in-a-later-exchange" if demo_elsewhere else "without-demonstration")
                 what = "+".join(k for k in ("O2", "O3") if o[k])
                 viol.append([
@@ -408,16 +438,23 @@ def run_plan(plan: Dict[str, Any]) -> Dict[str, Any]:
             if t.get(pc.T_STATE) == b"\x02" and pc.T_ERROR not in t and pc.T_SALT in t and pc.T_PUBLIC_KEY in t:
                 cur = (t[pc.T_SALT], t[pc.T_PUBLIC_KEY])
                 xch += 1
+                consumed = False
                 demo_elsewhere = demo_elsewhere or demo
                 demo = False
                 code_key = None
                 last_m3_kind = "none"
             if is_demo:
                 demo = True
+            if o["O2"] or o["O3"]:
+                # the exchange is single use: an accepted M5 consumes it.  Nothing sent afterwards (replayed or
+                # new, M3 or M5) counts for "this very exchange" until the accessory issues a new M2.
+                consumed, demo_elsewhere = True, demo_elsewhere or demo
+                demo, cur, code_key, good_client = False, None, None, None
+                xch += 1
             kinds.append(kind)
             outs.append(_outcome(r, t, o))
         return {"line": sc.model_line(), "impl": sc.impl_view(), "viol": viol, "kinds": kinds, "outs": outs,
-                "bodies": [o_["body"] for o_ in sc.ops]}
+                "bodies": [o_.get("body", o_.get("ev")) for o_ in sc.ops]}
     finally:
         env.close()
 
